@@ -668,6 +668,141 @@ fn oracle_combo<C: RangeCombo>(rng: &mut Rng, w: u32, s: u32, bps: &[(u32, Vec<u
     }
 }
 
+/// C12 (and C02 / C06): adversarial long messages.  Every symbol is chosen from the live
+/// encoder's `(lower, range)` as the table symbol whose sub-interval contains the next word
+/// boundary above `lower` (or the wrap-around point `2^S` if the interval already wraps), which
+/// keeps the encoder in the inverted situation across as many renormalisations as possible.
+/// The size bounds are checked after every symbol, the reference words at checkpoints, the
+/// round trip at the end.
+fn adversarial_combo<C: RangeCombo>(rng: &mut Rng, w: u32, s: u32, bps: &[(u32, Vec<u32>)], msgs: usize, rep: &mut Report) {
+    let tag = format!("{}x{}", w, s);
+    let m = mask(s);
+    let u = 1u128 << (s - w);
+    for mi in 0..msgs {
+        let (b, p) = match mi % 3 {
+            0 => { let (bb, ps) = bps.last().unwrap(); (*bb, *ps.last().unwrap()) } // P = W-ish
+            1 => { let (bb, ps) = &bps[0]; (*bb, ps[0]) }                          // small P
+            _ => pick_bp(rng, bps),
+        };
+        let total = pow2(p);
+        // uniform-like tables with 2^k symbols, or skewed ones
+        let cdf: Vec<u128> = match rng.next() % 4 {
+            0 | 1 => {
+                let k = (1 + rng.next() % 8).min(p as u64) as u32;
+                (0..=(1u128 << k)).map(|i| i << (p - k)).collect()
+            }
+            2 => {
+                // geometric: 1/2, 1/4, ... down to one quantum
+                let mut v = vec![0u128];
+                let mut acc = 0u128;
+                let mut width = total / 2;
+                while width >= 1 && acc + width < total && v.len() < 40 {
+                    acc += width;
+                    v.push(acc);
+                    width /= 2;
+                }
+                v.push(total);
+                v
+            }
+            _ => gen_cdf(rng, p),
+        };
+        if cdf.len() < 3 {
+            continue; // a one-symbol table is not a model
+        }
+        let n = 200 + (rng.next() % 1801) as usize;
+        let head = format!("range {:x} {:x} | new", w, s);
+        let mut coder: Enc<C> = RangeEncoder::new();
+        let mut bound = SizeBound::new();
+        let mut reference = RefCoder::new(s);
+        let mut syms: Vec<usize> = Vec::with_capacity(n);
+        let mut max_held = 0usize;
+        let mut renorms_while_inverted = 0usize;
+        let mut failed = false;
+        let replay = |syms: &Vec<usize>, cdf: &Vec<u128>| -> String {
+            let mut t = head.clone();
+            for &sy in syms {
+                t.push_str(&format!(" | enc {:x} {:x} {:x} {:x}", b, p, cdf[sy], cdf[sy + 1] - cdf[sy]));
+            }
+            t
+        };
+        for step in 0..n {
+            let st = coder.state();
+            let (lower, range) = (to_u128(st.lower()), to_u128(st.range().get()));
+            let scale = range >> p;
+            let wraps = lower.checked_add(range).map_or(true, |x| s < 128 && x > m);
+            let dist = if wraps { lower.wrapping_neg() & m } else { u - (lower & (u - 1)) };
+            let q = if scale == 0 { 0 } else { (dist / scale).min(total - 1) };
+            let tm = TableModel::<u8, 1>::new(cdf.clone());
+            let mut sym = tm.find(q).min(cdf.len() - 2);
+            if rng.chance(1, 50) {
+                sym = rng.below(cdf.len() as u128 - 1) as usize; // occasionally leave the regime
+            }
+            let held_before = coder.pos().0 - coder.bulk().len();
+            let words_before = coder.pos().0;
+            let o = guarded(|| C::enc_sym(&mut coder, b, p, &cdf, sym).unwrap());
+            rep.eval("C02");
+            syms.push(sym);
+            if o != Ok("ok".to_string()) {
+                rep.fail("C02", format!("{} => encoding an in-support symbol returned {:?}", replay(&syms, &cdf), o));
+                failed = true;
+                break;
+            }
+            let held = coder.pos().0 - coder.bulk().len();
+            if held_before > 0 && held > held_before && coder.pos().0 > words_before {
+                renorms_while_inverted += 1;
+            }
+            max_held = max_held.max(held);
+            bound.push(w, s, p, cdf[sym + 1] - cdf[sym]);
+            reference.step(w, s, p, cdf[sym], cdf[sym + 1] - cdf[sym]);
+            rep.eval("C12");
+            let (nw, nb) = (coder.num_words(), coder.num_bits());
+            if !bound.holds(w, s, nb) || nw > step + 1 + 2 {
+                rep.fail("C12", format!("{} | nb | nw => {:x} bits / {:x} words after {:x} symbols exceed the bound (adversarial message, {:x} words held back)", replay(&syms, &cdf), nb, nw, step + 1, held));
+                failed = true;
+                break;
+            }
+            if (step + 1) % 256 == 0 || step + 1 == n {
+                rep.eval("C06");
+                let got = export::<C>(&coder);
+                let want = reference.words(w, s);
+                if got != want {
+                    rep.fail("C06", format!("{} | export => differs from the arbitrary-precision reference coder after {:x} symbols (first difference at word {:x})", replay(&syms, &cdf), step + 1, got.iter().zip(want.iter()).position(|(a, b)| a != b).unwrap_or(got.len().min(want.len()))));
+                    failed = true;
+                    break;
+                }
+            }
+        }
+        let bucket = |x: usize| -> &'static str { match x { 0 => "0", 1 => "1", 2 => "2", 3..=4 => "3-4", 5..=8 => "5-8", 9..=16 => "9-16", _ => "17+" } };
+        rep.count(&format!("C12.adversarial.{}.messages", tag));
+        rep.count(&format!("C12.adversarial.{}.max_consecutive_inverted_renorms.{}", tag, bucket(max_held)));
+        if max_held >= 2 {
+            rep.count(&format!("C12.adversarial.{}.stayed_inverted_across_renorms", tag));
+        }
+        for _ in 0..renorms_while_inverted.min(1) {
+            rep.count(&format!("C12.adversarial.{}.messages_with_inverted_renorm", tag));
+        }
+        if failed {
+            continue;
+        }
+        // round trip
+        let sealed = coder.into_compressed().unwrap();
+        let mut d: Dec<C> = RangeDecoder::from_compressed(sealed).unwrap();
+        rep.eval("C02");
+        for (i, &sy) in syms.iter().enumerate() {
+            let o = guarded(|| C::dec(&mut d, b, p, &cdf).unwrap());
+            if o != Ok(hex(sy as u128)) {
+                rep.fail("C02", format!("{} | intodec | {:x} × dec {:x} {:x} {} => symbol {:x} decoded as {:?} expected {:x}", replay(&syms, &cdf), i + 1, b, p, show_list(cdf.clone()), i, o, sy));
+                failed = true;
+                break;
+            }
+        }
+        if !failed && !d.maybe_exhausted() {
+            rep.fail("C02", format!("{} | intodec | … | exhausted => false after the last symbol", replay(&syms, &cdf)));
+        }
+        rep.sample("C12", || format!("adversarial: {} symbols at B={:x} P={:x} table {} on {}: up to {} words held back", n, b, p, show_list(cdf.clone()), tag, max_held));
+    }
+}
+
 fn desc_with_snaps(head: &str, msg: &[(u32, u32, Vec<u128>, usize)]) -> String {
     let mut s = format!("{} | snap", head);
     for (b, p, cdf, sym) in msg {
@@ -678,6 +813,20 @@ fn desc_with_snaps(head: &str, msg: &[(u32, u32, Vec<u128>, usize)]) -> String {
 
 pub fn oracle(rng: &mut Rng, tier: &str, rep: &mut Report) {
     let iters = if tier == "thorough" { 20000 } else { 1200 };
+    let adv = if tier == "thorough" { 60 } else { 6 };
+    for (w, s, bps) in combos() {
+        match (w, s) {
+            (8, 16) => adversarial_combo::<C8x16>(rng, w, s, &bps, adv, rep),
+            (8, 32) => adversarial_combo::<C8x32>(rng, w, s, &bps, adv, rep),
+            (8, 64) => adversarial_combo::<C8x64>(rng, w, s, &bps, adv, rep),
+            (16, 32) => adversarial_combo::<C16x32>(rng, w, s, &bps, adv, rep),
+            (16, 64) => adversarial_combo::<C16x64>(rng, w, s, &bps, adv, rep),
+            (32, 64) => adversarial_combo::<C32x64>(rng, w, s, &bps, adv, rep),
+            (32, 128) => adversarial_combo::<C32x128>(rng, w, s, &bps, adv, rep),
+            (64, 128) => adversarial_combo::<C64x128>(rng, w, s, &bps, adv, rep),
+            _ => {}
+        }
+    }
     for (w, s, bps) in combos() {
         match (w, s) {
             (8, 16) => oracle_combo::<C8x16>(rng, w, s, &bps, iters, rep),
